@@ -168,6 +168,7 @@ type c39Params struct {
 	Commit    int    `json:"commit"` // last canonical block whose state is flushed (0 = none)
 	Freeze    int    `json:"freeze"` // freeze threshold (0 = no freezing): blocks <= Len-Freeze are frozen
 	Pivot     int    `json:"pivot"`  // snap sync pivot marker (0 = none)
+	NoTrie    bool   `json:"notrie"` // path scheme: trienode history disabled (TrienodeHistory=-1, the production default); false = enabled (0)
 	Hist      bool   `json:"hist"`   // an ancient directory exists (path scheme: state histories are kept, states below the disk layer are recoverable)
 	PostOp    int    `json:"postop"` // operation applied after the re-open, before the re-import: -1 none, k >= 0: SetHead(k)
 	Crash     string `json:"crash"`  // "abandon" or "kv@<k>" (set by the driver)
@@ -186,6 +187,9 @@ func (p c39Params) option() *BlockChainConfig {
 		StateScheme:      p.Scheme,
 		NoPrefetch:       true,
 		TrieNoAsyncFlush: true,
+	}
+	if p.NoTrie {
+		o.TrienodeHistory = -1
 	}
 	if p.Snapshots && p.Scheme == rawdb.HashScheme {
 		o.SnapshotLimit = 256
@@ -487,13 +491,14 @@ type c39GapErr struct{ msg string }
 func (e *c39GapErr) Error() string { return e.msg }
 
 // c39Recover re-opens the chain on db and checks the post-crash conditions.
-//   wantHead: admissible head blocks (canonical numbers) after recovery
-//   present:  blocks that must still be stored
-//   gapFinding: when non-nil, a hole in the canonical index right after re-open is handed to it
-//             (classified finding) instead of failing the case; the re-import must then heal it
-//   forkFinding: when non-nil and the recovered head header is not on the canonical chain that is
-//             re-imported (the node crashed while it was on a fork), canonical entries of that fork
-//             left above the new head after the re-import are handed to it (classified finding)
+//
+//	wantHead: admissible head blocks (canonical numbers) after recovery
+//	present:  blocks that must still be stored
+//	gapFinding: when non-nil, a hole in the canonical index right after re-open is handed to it
+//	          (classified finding) instead of failing the case; the re-import must then heal it
+//	forkFinding: when non-nil and the recovered head header is not on the canonical chain that is
+//	          re-imported (the node crashed while it was on a fork), canonical entries of that fork
+//	          left above the new head after the re-import are handed to it (classified finding)
 func c39Recover(f *c39Forest, p c39Params, db ethdb.Database, wantHead []int, present []c39Inserted, gapFinding, forkFinding func(desc string)) (rc *c39Recovered, err error) {
 	rc = &c39Recovered{f: f, p: p, db: db}
 	chain, e := NewBlockChain(db, f.gspec, ethash.NewFaker(), p.option())
@@ -642,16 +647,18 @@ func c39Grid(r *mc.R) (abandon, kvprefix []c39Params) {
 	}
 	kvSideMaxLen := mc.Pick(r, 2, 5) // kv-prefix histories with a side chain only up to this length
 	kvSnapMaxLen := mc.Pick(r, 2, 5) // kv-prefix histories with snapshots only up to this length
-	postMaxLen := mc.Pick(r, 3, 4) // post-recovery SetHead(k) dimension only for canonical lengths up to this
+	postMaxLen := mc.Pick(r, 3, 4)   // post-recovery SetHead(k) dimension only for canonical lengths up to this
 	r.Bound("postop_max_canonical_len", postMaxLen)
 	type sc struct {
 		scheme string
 		snaps  bool
 		hist   bool
+		notrie bool
 	}
 	// path scheme twice: without ancient directory (no state histories: states below the
 	// disk layer are gone for good) and with it (they are recoverable)
-	schemes := []sc{{rawdb.HashScheme, false, false}, {rawdb.HashScheme, true, false}, {rawdb.PathScheme, false, false}, {rawdb.PathScheme, false, true}}
+	schemes := []sc{{rawdb.HashScheme, false, false, false}, {rawdb.HashScheme, true, false, false}, {rawdb.PathScheme, false, false, false},
+		{rawdb.PathScheme, false, true, false}, {rawdb.PathScheme, false, true, true}} // the ancient-directory configuration with trienode history enabled and disabled
 	for _, s := range schemes {
 		for l := 1; l <= maxLen; l++ {
 			for _, side := range sides {
@@ -685,7 +692,7 @@ func c39Grid(r *mc.R) (abandon, kvprefix []c39Params) {
 								if r.Quick() && fr > 0 && pv != 0 && pv != (l+1)/2 {
 									continue // quick: the freezer is crossed with the pivots {none, middle} only
 								}
-								base := c39Params{Scheme: s.scheme, Snapshots: s.snaps, Hist: s.hist, Len: l, Side: side, Fork: fk, Commit: c, Freeze: fr, Pivot: pv, PostOp: -1, Crash: "abandon"}
+								base := c39Params{Scheme: s.scheme, Snapshots: s.snaps, Hist: s.hist, NoTrie: s.notrie, Len: l, Side: side, Fork: fk, Commit: c, Freeze: fr, Pivot: pv, PostOp: -1, Crash: "abandon"}
 								abandon = append(abandon, base)
 								// post-recovery SetHead(k) for every k up to the recovered head block
 								if pv == 0 && l <= postMaxLen && !(r.Quick() && fr > 0) {
@@ -731,6 +738,62 @@ func c39Scratch() string {
 }
 
 var c39DirSeq atomic.Int64
+
+// c39RunAbandon runs the "abandon" crash model over the given grid points.
+func c39RunAbandon(r *mc.R, f *c39Forest, abandon []c39Params, scratch string) {
+	r.Parallel(len(abandon), func(i int) {
+		p := abandon[i]
+		r.Case(p, func() error {
+			dir := ""
+			if p.ancient() {
+				dir = filepath.Join(scratch, fmt.Sprintf("c39-%d", c39DirSeq.Add(1)))
+				defer os.RemoveAll(dir)
+			}
+			h, err := c39Build(f, p, false, dir)
+			if err != nil {
+				if h != nil && h.chain != nil {
+					h.abandon()
+				}
+				return err
+			}
+			var present []c39Inserted
+			if p.Freeze == 0 && p.PostOp < 0 {
+				present = h.inserted
+			}
+			h.abandon()
+			if err := h.openDB(); err != nil {
+				return fmt.Errorf("cannot re-open database: %v", err)
+			}
+			rc, err := c39Recover(f, p, h.db, []int{c39WantHead(p)}, present, nil, nil)
+			rc.close()
+			if err != nil {
+				return err
+			}
+			if p.PostOp >= 0 {
+				r.Outcome("abandon/with-post-recovery-SetHead")
+			}
+			switch {
+			case rc.awaiting:
+				r.Outcome("abandon/stateless-genesis-awaits-state-sync")
+			case c39WantHead(p) == 0:
+				r.Outcome("abandon/head=genesis")
+			case c39WantHead(p) == p.Len:
+				r.Outcome("abandon/head=tip")
+			default:
+				r.Outcome("abandon/head=flushed-block")
+			}
+			if rc.danglingSnapMarker {
+				r.Outcome("abandon/stored-snap-marker-dangling")
+			}
+			return nil
+		})
+		r.Distinct(fmt.Sprintf("%+v", p))
+		if i%97 == 0 {
+			r.Sample(p)
+		}
+	})
+
+}
 
 func TestVerif_C39(t *testing.T) {
 	mc.Run(t, "C39", func(r *mc.R) {
@@ -815,57 +878,71 @@ func TestVerif_C39(t *testing.T) {
 			}
 		})
 		// --- abandon model
-		r.Parallel(len(abandon), func(i int) {
-			p := abandon[i]
-			r.Case(p, func() error {
-				dir := ""
-				if p.ancient() {
-					dir = filepath.Join(scratch, fmt.Sprintf("c39-%d", c39DirSeq.Add(1)))
-					defer os.RemoveAll(dir)
-				}
-				h, err := c39Build(f, p, false, dir)
-				if err != nil {
-					if h != nil && h.chain != nil {
-						h.abandon()
-					}
-					return err
-				}
-				var present []c39Inserted
-				if p.Freeze == 0 && p.PostOp < 0 {
-					present = h.inserted
-				}
-				h.abandon()
-				if err := h.openDB(); err != nil {
-					return fmt.Errorf("cannot re-open database: %v", err)
-				}
-				rc, err := c39Recover(f, p, h.db, []int{c39WantHead(p)}, present, nil, nil)
-				rc.close()
-				if err != nil {
-					return err
-				}
-				if p.PostOp >= 0 {
-					r.Outcome("abandon/with-post-recovery-SetHead")
-				}
-				switch {
-				case rc.awaiting:
-					r.Outcome("abandon/stateless-genesis-awaits-state-sync")
-				case c39WantHead(p) == 0:
-					r.Outcome("abandon/head=genesis")
-				case c39WantHead(p) == p.Len:
-					r.Outcome("abandon/head=tip")
-				default:
-					r.Outcome("abandon/head=flushed-block")
-				}
-				if rc.danglingSnapMarker {
-					r.Outcome("abandon/stored-snap-marker-dangling")
-				}
-				return nil
-			})
-			r.Distinct(fmt.Sprintf("%+v", p))
-			if i%97 == 0 {
-				r.Sample(p)
-			}
-		})
+		c39RunAbandon(r, f, abandon, scratch)
 
+	})
+}
+
+// TestVerif_C39_flatten is the scaled companion of TestVerif_C39: it is run with
+// triedb/pathdb maxDiffLayers re-valued to 2 (check step "flatten", instrumented
+// config.go), so that with the short chains of the grid the layer tree flattens diff
+// layers into the (unflushed) disk-layer buffer during the history - which writes state
+// histories AHEAD of the persisted state id - and again during the re-import after the
+// crash. Path scheme with ancient directory only, trienode history enabled and disabled.
+func TestVerif_C39_flatten(t *testing.T) {
+	mc.Run(t, "C39", func(r *mc.R) {
+		f := c39GetForest()
+		scratch := c39Scratch()
+		maxLen := mc.Pick(r, 5, 7)
+		r.Rule("scaled run (pathdb maxDiffLayers=2): grid {path scheme with ancient directory} x trienode history {enabled, disabled} x canonical length 1..max x flushed-state block 0..len x freeze threshold {off,2} x post-recovery operation {none, SetHead(k), k=0..recovered head}; crash = drop all memory after the history; the re-import runs from the recovered head block to the original head, i.e. past the flatten depth")
+		r.Assume("maxDiffLayers is re-valued to 2 by source instrumentation (unscaled run: TestVerif_C39); the test first witnesses that the scaling is effective (state histories exist although nothing was flushed); no side chains in the scaled run; oracle as in TestVerif_C39")
+		r.Bound("flatten.max_canonical_len", maxLen)
+
+		// self-check: import 4 blocks without any flush, close; with maxDiffLayers=2 the bottom
+		// layers were flattened and their state histories written
+		{
+			dir := filepath.Join(scratch, fmt.Sprintf("c39-%d", c39DirSeq.Add(1)))
+			p := c39Params{Scheme: rawdb.PathScheme, Hist: true, Len: 4, PostOp: -1}
+			h, err := c39Build(f, p, false, dir)
+			if err != nil {
+				r.HarnessError("c39 flatten self-check: " + err.Error())
+				return
+			}
+			h.abandon()
+			sf, err := rawdb.NewStateFreezer(filepath.Join(dir, "ancient"), false, true)
+			if err != nil {
+				r.HarnessError("c39 flatten self-check: cannot open the state freezer: " + err.Error())
+				return
+			}
+			n, _ := sf.Ancients()
+			sf.Close()
+			os.RemoveAll(dir)
+			if n == 0 {
+				r.HarnessError("c39 flatten: maxDiffLayers is not scaled (no state history after 4 unflushed blocks); run through the 'flatten' step of checks/C39.json")
+				return
+			}
+			r.Bound("flatten.state_histories_after_4_unflushed_blocks", n)
+		}
+		var grid []c39Params
+		for _, notrie := range []bool{false, true} {
+			for l := 1; l <= maxLen; l++ {
+				for c := 0; c <= l; c++ {
+					for _, fr := range []int{0, 2} {
+						if fr > 0 && fr >= l {
+							continue
+						}
+						base := c39Params{Scheme: rawdb.PathScheme, Hist: fr == 0, NoTrie: notrie, Len: l, Commit: c, Freeze: fr, PostOp: -1, Crash: "abandon"}
+						grid = append(grid, base)
+						for k := 0; k <= c; k++ {
+							q := base
+							q.PostOp = k
+							grid = append(grid, q)
+						}
+					}
+				}
+			}
+		}
+		r.Bound("flatten.abandon_cases", len(grid))
+		c39RunAbandon(r, f, grid, scratch)
 	})
 }
